@@ -29,6 +29,14 @@ Fixpoint embf (f : bf A) : tf :=
   | TN1 _ u r => if u then TUn A (LTop A) (embf r) else TRl A (TBot A) (embf r)
   | TP2 _ u l r => if u then TSi A (embf l) (embf r) else TTr A (embf l) (embf r)
   | TP1 _ u r => if u then TSi A (LTop A) (embf r) else TTr A (TBot A) (embf r)
+  | Dia _ _ _ | Box _ _ _ => TBot A                 (* &del formulas have no counterpart in the temporal specification language (they have LDL.ds) *)
+  end.
+Fixpoint tel_only (f : bf A) : bool :=
+  match f with
+  | At _ _ | Cst _ _ => true
+  | Neg _ x | Pv _ _ _ x | Ini _ x | Nx _ _ _ x | TN1 _ _ x | TP1 _ _ x => tel_only x
+  | Bin _ _ x y | TN2 _ _ x y | TP2 _ _ x y => tel_only x && tel_only y
+  | Dia _ _ _ | Box _ _ _ => false
   end.
 Lemma fut_ext2 u sx sy sx' sy' d k : (forall j, sx j = sx' j) -> (forall j, sy j = sy' j) -> fut u sx sy d k = fut u sx' sy' d k.
 Proof. intros Ex Ey. revert k. induction d as [|d IH]; intros k; cbn [fut]; [apply Ey|]. now rewrite Ex, Ey, IH. Qed.
@@ -36,9 +44,11 @@ Lemma pst_ext2 u sx sy sx' sy' k : (forall j, sx j = sx' j) -> (forall j, sy j =
 Proof. intros Ex Ey. induction k as [|k IH]; cbn [pst]; [apply Ey|]. now rewrite Ex, Ey, IH. Qed.
 Lemma lsat_initially_tf (r : tf) k : TEL.lsat A h T (LInitially A r) k = TEL.lsat A h T r 0.
 Proof. rewrite <- !(tsat_total A h T). apply law_initially. Qed.
-Theorem lsat_embf : forall f k, BodyTheoryFull.lsat A h T f k = TEL.lsat A h T (embf f) k.
+Theorem lsat_embf : forall f, tel_only f = true -> forall k, BodyTheoryFull.lsat A h T f k = TEL.lsat A h T (embf f) k.
 Proof.
-  induction f as [a|b|x IH|op x IHx y IHy|n w x IH|x IH|n w x IH|u l IHl r IHr|u r IHr|u l IHl r IHr|u r IHr]; intros k; cbn [BodyTheoryFull.lsat embf].
+  induction f as [a|b|x IH|op x IHx y IHy|n w x IH|x IH|n w x IH|u l IHl r IHr|u r IHr|u l IHl r IHr|u r IHr|p g IHg|p g IHg]; intros To k; cbn [tel_only] in To; try discriminate;
+    try (apply andb_true_iff in To as [To1 To2]); try specialize (IH To); try specialize (IHx To1); try specialize (IHy To2); try specialize (IHl To1); try specialize (IHr To2); try specialize (IHr To);
+    cbn [BodyTheoryFull.lsat embf].
   - reflexivity.
   - now destruct b.
   - rewrite IH. unfold LNot. cbn [TEL.lsat]. now destruct (TEL.lsat A h T (embf x) k).
